@@ -112,6 +112,11 @@ def mpf2float(dtype, x, flush_subnormals=False, prec=None, rounding=None):
             else vectorize_with_mpmath.float_subexp[fp_format]
         )
         if exp + bc < zexp:
+            if not flush_subnormals and prec_rounding[1] == "n" and x._mpf_[2] + x._mpf_[3] == zexp - 1 and x._mpf_[1] != 1:
+                # strictly between half the smallest subnormal and the smallest subnormal: the nearest value is the
+                # smallest subnormal (exactly half, a power of two, is a tie and goes to zero)
+                r = numpy.ldexp(dtype(1), zexp - 1)
+                return -r if sign else r
             return -dtype(0) if sign else dtype(0)
         if exp + bc > vectorize_with_mpmath.float_maxexp[fp_format]:
             return dtype(-numpy.inf) if sign else dtype(numpy.inf)
